@@ -126,4 +126,4 @@ def run_cli(args, cwd=None):
 		err = res.stderr
 	except Exception:
 		err = ''
-	return res.exit_code, res.output, exc, err
+	return res.exit_code, getattr(res, "stdout", res.output), exc, err
